@@ -525,6 +525,10 @@ class LoopInterp:
 
     # -- the walk
     def prologue(self, head):
+        heads = head if isinstance(head, (set, frozenset)) else {head}
+        return self._prologue(heads)
+
+    def _prologue(self, heads):
         """Interprets the closure from its entry to the loop head (the counters are 0 there, O1) and returns
         the iterator locals it set up: {local: RangeIt}.  Anything else it could do to the buffer or the
         counters is refused by `call` / `assign`."""
@@ -542,7 +546,7 @@ class LoopInterp:
                 steps += 1
                 if steps > 2000:
                     raise CUnanalysable('prologue too long')
-                if bb == head:
+                if bb in heads:
                     arrived.append(st)
                     break
                 t = self.b.blocks[bb]['term']
@@ -559,7 +563,9 @@ class LoopInterp:
             raise CUnanalysable('the closure can leave before its loop')
         its = None
         # the iterator locals the loop actually advances (borrowed inside the loop)
-        in_loop = self.b.reachable(head, unwind=False)
+        in_loop = set()
+        for h in heads:
+            in_loop |= self.b.reachable(h, unwind=False)
         borrowed = set()
         for bb_, _, s2 in self.b.statements():
             if bb_ in in_loop and s2['k'] == 'assign' and s2['rv']['k'] == 'ref' and not s2['rv']['place']['p']:
@@ -573,10 +579,23 @@ class LoopInterp:
             its = cur
         # what the prologue left in the locals (references to the buffer / the counters, constants)
         # stays valid in the loop: locals only change when they are assigned
-        self.entry_locals = dict(arrived[0].L) if len(arrived) == 1 else {}
+        # — so a local that anything past a loop head assigns (a statement, a call's destination) is not
+        # carried: its value at the head would be the one of the previous way round
+        assigned = set()
+        everything = set()
+        for h in heads:
+            everything |= self.b.reachable(h, unwind=True)
+        for bb_ in everything:
+            blk = self.b.blocks[bb_]
+            for s2 in blk['stmts']:
+                if s2['k'] == 'assign' and not s2['place']['p']:
+                    assigned.add(s2['place']['l'])
+            if blk['term']['k'] == 'call' and blk['term'].get('dest') and not blk['term']['dest']['p']:
+                assigned.add(blk['term']['dest']['l'])
+        self.entry_locals = {l: v for l, v in arrived[0].L.items() if l not in assigned or isinstance(v, RangeIt)} if len(arrived) == 1 else {}
         return its or {}
 
-    def run(self, head, ranges=None, assume=None):
+    def run(self, head, ranges=None, assume=None, others=()):
         """Interpret from the loop head with the invariant 0<=p<=q<=n<=MAX assumed (plus, for a loop
         driven by a `start..end` iterator, the candidate facts in `assume` about its position `i`)."""
         st = LoopState()
@@ -602,6 +621,10 @@ class LoopInterp:
                     raise CUnanalysable('path explosion')
                 if bb == head and not first:
                     self.exits.append(('back', st, bb))
+                    break
+                if bb in others and not first:
+                    # another loop of the closure: a cut point with the same invariant
+                    self.exits.append(('next', st, bb))
                     break
                 first = False
                 st.trace.append(bb)
@@ -1130,7 +1153,16 @@ def loop_rules(ctx, crate, body, info, conv, label):
         exits = closure_driven_loop(ctx, crate, body, li, info, label)
         heads = None
     elif len(heads) != 1:
-        raise CUnanalysable('expected exactly one loop in the conversion closure, found heads %s' % sorted(heads))
+        # several loops (a lead-in loop, a loop that skips, nested loops): every head is a cut point
+        # with the same region invariant; each is interpreted from its head to the next cut point
+        if li.prologue(set(heads)):
+            raise CUnanalysable('several loops in the conversion closure and a range iterator drives one of them')
+        li.loop_head = sorted(heads)
+        exits = []
+        for h in sorted(heads):
+            exits += li.run(h, None, None, others=set(heads) - {h})
+        li.discharged('O1', body.span(), 'loops with heads %s: each interpreted from its head, under the region invariant, to the next arrival at a head' % sorted(heads))
+        heads = None
     if heads is not None:
         exits = iterate_in_body(li, body, heads.pop())
     judge_exits(ctx, body, li, exits, conv, label)
@@ -1298,20 +1330,26 @@ def judge_exits(ctx, body, li, exits, conv, label):
         if not ok_regions:
             last = [e for e in evs if e[0] in ('take', 'store', 'set', 'unwind-from', 'assert-fail')][-3:]
             if not st.dbm.eq(pc, st.lu):
-                li.fail('O2', ['C09'] if kind != 'back' else ['C08', 'C09'], where,
+                li.fail('O2', ['C09'] if kind not in ('back', 'next') else ['C08', 'C09'], where,
                         'at the %s exit the outputs stored are [0,%s) but the produced counter says [0,%s): %s (recent events: %s)' % (
                             kind, lf_str(st.lu), lf_str(pc),
                             'an output already stored would be leaked by cleanup' if st.dbm.le(pc, st.lu) else 'cleanup would drop a slot that holds no output', last),
                         'exit-produced-%s' % kind)
             if not st.dbm.eq(qc, st.lt):
-                li.fail('O2', ['C09'] if kind != 'back' else ['C08', 'C09'], where,
+                li.fail('O2', ['C09'] if kind not in ('back', 'next') else ['C08', 'C09'], where,
                         'at the %s exit the live inputs are [%s,n) but the consumed counter says [%s,n): %s (recent events: %s)' % (
                             kind, lf_str(st.lt), lf_str(qc),
                             'cleanup would drop an element that was already moved out' if st.dbm.le(qc, st.lt) else 'a live input would be leaked', last),
                         'exit-consumed-%s' % kind)
         else:
             li.discharged('O2', where, '%s exit: outputs [0,%s) = produced, inputs [%s,n) = consumed' % (kind, lf_str(st.lu), lf_str(st.lt)))
-        if kind == 'back':
+        if kind == 'next' and not [e for e in evs if e[0] in ('take', 'store', 'convert')]:
+            # from one loop to the next with nothing done in between: the counters are unchanged
+            if not (st.dbm.eq(pc, ('p', 0)) and st.dbm.eq(qc, ('q', 0))):
+                li.fail('O1', ['C08', 'C09'], where, 'between two loops the counters change (produced=%s, consumed=%s) although no element was taken or stored' % (lf_str(pc), lf_str(qc)), 'between-loops')
+            else:
+                li.discharged('O1', where, 'from one loop to the next: counters and regions unchanged')
+        elif kind in ('back', 'next'):
             # O1: invariant inductive; O4: progress
             if not (st.dbm.le(('0', 0), pc) and st.dbm.le(pc, qc) and st.dbm.le(qc, ('n', 0))):
                 li.fail('O1', ['C08', 'C09'], where, 'the region invariant 0 <= produced <= consumed <= len is not re-established at the back edge (produced=%s, consumed=%s)' % (lf_str(pc), lf_str(qc)), 'inductive')
@@ -1335,7 +1373,7 @@ def judge_exits(ctx, body, li, exits, conv, label):
                     li.fail('O5', ['C08'], where, 'the closure can return success with consumed=%s which is not provably len' % lf_str(qc), 'all-consumed')
                 else:
                     li.discharged('O5', where, 'success return only with consumed = len (every input was handed to the converter)')
-    if kinds['back'] == 0:
+    if kinds['back'] + kinds['next'] == 0:
         li.fail('O1', ['C08'], body.span(), 'no path returns to the loop head', 'no-back-edge')
     if kinds['unwind'] == 0:
         li.fail('O2', ['C09'], body.span(), 'no unwind exit found in the loop closure (the converter call must be able to unwind)', 'no-unwind')
